@@ -452,7 +452,7 @@ func drive(ck *Check, tier string, seed int64) int {
 			defer func() { <-sem }()
 			outf := filepath.Join(tmp, fmt.Sprintf("shard-%d.json", i))
 			cmd := exec.Command(self, ck.ID, "--tier", tier, "--worker", fmt.Sprintf("%d/%d", i, n), "--out", outf)
-			cmd.Env = append(os.Environ(), "GOMAXPROCS=2", "GOGC=200")
+			cmd.Env = append(os.Environ(), "GOMAXPROCS=1", "GOGC=200")
 			var stderr strings.Builder
 			cmd.Stderr = &stderr
 			cmd.Stdout = &stderr
